@@ -38,7 +38,7 @@ CacheOf(kind, declared) ==
     [] kind = "undeclared" -> [kind |-> "doc", doc |-> DocFor(NameSet, 1, 0), wfail |-> FALSE]      \* also secrets nobody declared, stamp 0 s
     [] kind = "zerostamp"  -> [kind |-> "doc", doc |-> DocFor(NameSet, 1, -1000000), wfail |-> FALSE]
 
-Configs == {[declared |-> d, allowLookup |-> al, expiry |-> e, hasCache |-> hc, fileClient |-> FALSE, auto |-> au] :
+Configs == {[declared |-> d, allowLookup |-> al, expiry |-> e, hasCache |-> hc, fileClient |-> FALSE, auto |-> au, structs |-> <<>>] :
               d \in DeclaredSets, al \in AllowLookups, e \in Expiries, hc \in BOOLEAN, au \in {On("tick")}}
 
 Dl(set, x) == IF x = 0 THEN Nil ELSE now + x
